@@ -1,10 +1,12 @@
 import Lean.Data.Json
 import Drivers.Util
+import Drivers.Dbl
 import Drivers.Versions
 open Lean
 
 def dispatch (m op : String) (a : Json) : Except String Json :=
   match m with
+  | "dbl" => Drivers.Dbl.handle op a
   | "versions" => Drivers.Versions.handle op a
   | "ping" => .ok (DUtil.ok (Json.str "pong"))
   | _ => .error s!"unknown model {m}"
